@@ -4,6 +4,7 @@ use crate::json::Json;
 use crate::refsim::*;
 use crate::rng::Rng;
 use crate::simutil::*;
+use crate::progs::*;
 
 pub fn prop() -> Prop {
     Prop {
@@ -56,6 +57,7 @@ pub fn pending_irq(rng: &mut Rng, p: &Pair, rate: u64) -> Option<(u8, u8)> {
 }
 
 fn run(ctx: &mut Ctx) {
+    run_structured(ctx);
     let n = ctx.tier.pick(6_000, 600_000);
     ctx.cases(0, n, |ctx, rng, idx| {
         let real = idx & 1 == 1; let ign = idx & 2 == 2;
@@ -109,6 +111,53 @@ fn run(ctx: &mut Ctx) {
     });
 }
 
+/// Structured programs in lock-step (phase 1).
+fn run_structured(ctx: &mut Ctx) {
+    let n = ctx.tier.pick(1_500, 150_000);
+    ctx.cases(1, n, |ctx, rng, idx| {
+        let real = idx & 1 == 1; let ign = idx & 2 == 2 && rng.chance(1, 4);
+        let opts = ProgOpts { faults: rng.chance(1, 3), unbalanced: rng.chance(1, 4), ..ProgOpts::default() };
+        let prog = gen_user_prog(rng, &opts);
+        let kbd: Vec<u8> = (0..prog.kbd_needed + rng.usize(3)).map(|_| 1 + rng.below(255) as u8).collect();
+        let fill = rng.u16();
+        let mut p = Pair::new(real, ign, false, fill, Some(&kbd), true);
+        if p.load_text(&prog.text).is_err() { ctx.count("structured.not-assembled"); return; }
+        let irq_rate = *rng.pick(&[0u64, 0, 40, 200]);
+        let case = |trace: &Vec<String>| Json::obj().set("program", prog.text.as_str()).set("real_traps", real).set("ignore_privilege", ign).set("kbd", format!("{kbd:?}")).set("fill", fill).set("last_steps", Json::Arr(trace.iter().rev().take(12).rev().map(|t| Json::from(t.as_str())).collect()));
+        let mut trace: Vec<String> = vec![];
+        let cap = 6000;
+        let mut finished = false;
+        for sidx in 0..cap {
+            let cls = p.r.class_at_pc();
+            let mode = mode_tag(&p.r);
+            let pend = if irq_rate > 0 { pending_irq(rng, &p, irq_rate) } else { None };
+            let pc0 = p.r.pc;
+            let (got, exp) = match crate::monitor::guard(|| p.step(pend)) { Ok(x) => x, Err(pi) => { ctx.violation(&format!("panic-in-step:{cls}:{}", pi.sig()), format!("step_in panicked at x{pc0:04X}: {}", pi.msg), case(&trace)); return; } };
+            ctx.eval();
+            let kind = p.r.last_kind;
+            trace.push(format!("x{pc0:04X} {}", if kind == StepKind::InterruptEntry { "interrupt-entry" } else { cls }));
+            if trace.len() > 32 { trace.remove(0); }
+            let done = got.is_err() || exp == Outcome::Halt || (real && p.r.acc.get(&0xFFFE).is_some_and(|f| f & WRITTEN != 0) && !p.r.mcr);
+            if let Some(m) = p.compare(&got, exp, sidx % 64 == 63 || done) {
+                let k = if kind == StepKind::InterruptEntry { "interrupt-entry" } else { cls };
+                ctx.violation(&format!("{}:{k}:{mode}", m.component), format!("structured program, step {sidx} at x{pc0:04X}: {}", m.detail), case(&trace)); return;
+            }
+            if kind != StepKind::InterruptEntry { let out = match (&got, exp) { (Ok(()), Outcome::Halt) => "halt".to_string(), (Ok(()), _) => "ok".to_string(), (Err(e), _) => err_kind(e).to_string() }; ctx.count(&format!("step.{cls}.{mode}.{out}")); }
+            else { ctx.count(&format!("interrupt-entry.{mode}")); }
+            if p.r.last_gated { ctx.count("interrupt-gated"); }
+            if kind == StepKind::ExceptionEntry { ctx.count(&format!("exception-vectored.structured.{cls}")); }
+            if cls == "RTI" && got.is_ok() { ctx.count(if p.r.privileged() { "rti.to-supervisor" } else { "rti.to-user" }); }
+            if p.r.frame_no >= 2 { ctx.count("steps.at-nested-depth"); }
+            if done { finished = true; break; }
+        }
+        ctx.nontrivial_str(&prog.text);
+        ctx.count(if finished { "structured.finished" } else { "structured.step-cap" });
+        ctx.count(&format!("structured.ending.{}", prog.ending.name()));
+        for u in &prog.uses { ctx.count(&format!("structured.uses.{u}")); }
+        if ctx.want_sample() && prog.text.len() < 900 { ctx.sample(Json::obj().set("program", prog.text.as_str()).set("ending", prog.ending.name())); }
+    });
+}
+
 fn guard(m: &Merged, _t: Tier) -> Vec<String> {
     let mut out = vec![];
     for cls in ["BR", "ADDr", "ADDi", "ANDr", "ANDi", "LD", "ST", "JSR", "JSRR", "LDR", "STR", "RTI", "NOT", "LDI", "STI", "JMP", "LEA", "TRAP"] {
@@ -117,6 +166,8 @@ fn guard(m: &Merged, _t: Tier) -> Vec<String> {
     for e in ["AccessViolation", "PrivilegeViolation", "IllegalOpcode", "InvalidInstrFormat", "halt"] { let v: u64 = m.counts.iter().filter(|(k, _)| k.starts_with("step.") && k.ends_with(e)).map(|(_, v)| *v).sum(); if v == 0 { out.push(format!("no step ended with {e}")); } }
     need_prefix(m, &mut out, "exception-vectored.", 10);
     need_prefix(m, &mut out, "interrupt-entry.", 20);
-    for k in ["interrupt-gated", "rti.to-user", "rti.to-supervisor", "episodes.nested-calls"] { need(m, &mut out, k, 5); }
+    for k in ["interrupt-gated", "rti.to-user", "rti.to-supervisor", "episodes.nested-calls", "structured.finished", "steps.at-nested-depth"] { need(m, &mut out, k, 5); }
+    for u in ["loop", "JSR", "JSRR", "nested-call", "PUTS", "PUTSP", "OUT", "GETC/IN", "LDI", "STI", "stack-push-pop", "unbalanced-return"] { need(m, &mut out, &format!("structured.uses.{u}"), 5); }
+    for e in ["halt", "acv-load", "acv-store", "acv-jump", "privilege-rti", "illegal-opcode", "bad-format"] { need(m, &mut out, &format!("structured.ending.{e}"), 3); }
     out
 }
